@@ -37,7 +37,7 @@ for sid in ids:
         res = {}
         for c in checks[:1]:
             t0 = time.time()
-            env = dict(os.environ, HYPERCORN_SRC=f"{wt}/src", VERIF_NO_EVIDENCE="1")
+            env = dict(os.environ, HYPERCORN_SRC=f"{wt}/src", VERIF_NO_EVIDENCE="1", VERIF_REPLAY_DIR=f"/tmp/replays_re_{sid}")
             rc = sh(f"cd {VERIF} && ./check {c} --tier quick --jobs {JOBS}", env=env)
             res[c] = {"exit": rc.returncode, "wall_s": round(time.time() - t0, 1),
                       "first": [l for l in rc.stdout.splitlines() if l.startswith("  clause")][:2]}
@@ -47,7 +47,7 @@ for sid in ids:
         print(f"{sid}: {'caught' if ok else 'MISSED'} {res}")
     finally:
         sh(f"git -C /repo worktree remove --force {wt}")
-        sh(f"rm -rf {VERIF}/replays/tmp")
+        sh(f"rm -rf /tmp/replays_re_{sid}")
 if not sys.argv[1:]:
     json.dump(summary, open(f"{VERIF}/seeded/RESEED.json", "w"), indent=1)
 print(f"{len(ids) - bad}/{len(ids)} seeded changes still caught at {head}")
